@@ -172,3 +172,143 @@ def run(ctx):
                             f'for {cex["inst"][:200]}')
     ctx.extra['rule_evaluations'] = n_eval
     ctx.extra['exhaustive'] = False
+    try:
+        model_assumptions(ctx)
+    except SystemExit as e:
+        ctx.ob('C01-R3', 'facts', False, f'type-checked facts unavailable, the models of the side conditions cannot be tied to the code: {e}')
+
+
+def model_assumptions(ctx):
+    """C01-R3: the side conditions modelled in rulesem/check.py (trusted base of R1) are what the Rust code does. Decided on the
+    type-checked program (Engine A), so that a change of a condition function cannot silently invalidate the law check."""
+    R3 = 'C01-R3'
+    prog = ctx.prog('lib')
+    E = 'planner::rules::expr::'
+    ctx.rule(R3, 'the scalar side conditions are what the law check models: value_cmp calls its comparison only when both constants '
+                 'have the same DataValue variant (mem::discriminant equality dominates the call); is_greater_than_or_equal / '
+                 'is_greater_than / is_less_than_or_equal / is_less_than pass ge / gt / le / lt to it, operands in order; is_not_zero is '
+                 '`!is_zero` on a known constant')
+    vc = prog.body(E + 'value_cmp::{closure#0}')
+    if ctx.anchor(R3, E + 'value_cmp::{closure#0}', vc is not None):
+        ctx.functions_analysed.add(vc.name)
+        disc = [c for c in vc.calls if (c.fn or '') == 'std::mem::discriminant']
+        eq = [c for c in vc.calls if (c.fn or '').endswith('PartialEq::eq') and 'Discriminant' in ' '.join(c.t.get('gargs', []) + [c.res or ''])]
+        fcall = [c for c in vc.calls if (c.fn or '').endswith('ops::Fn::call')]
+        ok = False
+        if len(disc) == 2 and eq and fcall:
+            # the true arm of the switch on the equality result dominates the call of `f`
+            for i, bl in enumerate(vc.blocks):
+                t = bl['term']
+                if t['k'] == 'switch' and t['discr']['k'] != 'const' and t['discr']['pl']['l'] == eq[0].dest['l']:
+                    false_t = {tgt for v, tgt in t['targets'] if v == '0'}
+                    true_t = t.get('otherwise')
+                    if true_t is not None and all(vc.dominates(true_t, c.bb) for c in fcall) and \
+                            not (set(c.bb for c in fcall) & vc.reachable_from(list(false_t), avoid={true_t})):
+                        ok = True
+        ctx.ob(R3, 'value_cmp·same-variant-only', ok,
+               f'value_cmp: discriminant reads {len(disc)}, Discriminant equality {len(eq)}, calls of f {len(fcall)}; f must run only under '
+               'equal discriminants (DataValue derives a cross-variant order: Int32(3) < Decimal(2.5))', [vc.loc],
+               what='value_cmp compares constants of different DataValue variants: the fold rules (and-*-fold, and-gt-lt-conflict) then '
+                    'order an INT against a DECIMAL/BIGINT literal by variant position and drop the wrong bound')
+    WANT = {'is_greater_than_or_equal': 'ge', 'is_greater_than': 'gt', 'is_less_than_or_equal': 'le', 'is_less_than': 'lt'}
+    for fn, m in WANT.items():
+        outer, inner = prog.body(E + fn), prog.body(E + fn + '::{closure#0}')
+        if not ctx.anchor(R3, E + fn, outer is not None and inner is not None):
+            continue
+        ctx.functions_analysed.add(inner.name)
+        cmps = [c for c in inner.calls if re.search(r'std::cmp::PartialOrd::(lt|le|gt|ge)$', c.fn or '')]
+        via = any((c.fn or '') == E + 'value_cmp' for c in outer.calls)
+        ok = via and len(cmps) == 1 and cmps[0].fn.endswith('::' + m) and len(inner.calls) == 1
+        if ok:   # operands in order: arg0 derives from parameter 2 (d1), arg1 from parameter 3 (d2)
+            from tmpl import origin_locals
+            a0, a1 = cmps[0].args[0], cmps[0].args[1]
+            ok = a0['k'] != 'const' and a1['k'] != 'const' and 2 in origin_locals(inner, a0['pl']['l']) and 3 in origin_locals(inner, a1['pl']['l']) \
+                and 3 not in origin_locals(inner, a0['pl']['l']) and 2 not in origin_locals(inner, a1['pl']['l'])
+        ctx.ob(R3, f'{fn}·is·{m}', ok, f'{fn}: goes through value_cmp: {via}; comparison calls: {[c.fn for c in cmps]}', [inner.loc],
+               what=f'the side condition {fn} is no longer `d1.{m}(d2)` under value_cmp: the model used by the law check does not describe it')
+    nz, nzc = prog.body(E + 'is_not_zero'), prog.body(E + 'is_not_zero::{closure#0}')
+    if ctx.anchor(R3, E + 'is_not_zero', nz is not None and nzc is not None):
+        via = any((c.fn or '') == E + 'value_is' for c in nz.calls)
+        isz = [c for c in nzc.calls if (c.fn or '').endswith('DataValue::is_zero')]
+        neg = any(st.get('rv', {}).get('rv') == 'unop' and st['rv'].get('op') == 'Not' for _, st in nzc.stmts() if st['s'] == 'assign')
+        ctx.ob(R3, 'is_not_zero·is·!is_zero', via and len(isz) == 1 and len(nzc.calls) == 1 and neg,
+               f'is_not_zero: through value_is: {via}; is_zero calls: {len(isz)}; negated: {neg}', [nzc.loc])
+    plan_condition_assumptions(ctx, prog)
+
+
+def _captures(body, l, depth=14):
+    """indices of the closure's captured variables (fields of *_1) from which local l derives"""
+    from tmpl import origin_locals, local_defs
+    from mir import operand_places
+    out = set()
+    for o in origin_locals(body, l, depth=depth):
+        for bb, kind, payload in local_defs(body, o):
+            places = operand_places(payload) if kind == 'assign' else [a['pl'] for a in payload.get('args', []) if a['k'] != 'const']
+            for pl in places:
+                if pl['l'] == 1:
+                    out |= {int(p[2:]) for p in pl['p'] if re.match(r'^f:\d+$', p)}
+    return out
+
+
+def _match_true_variants(body):
+    """variants of planner::Expr for which a `matches!` closure returns true"""
+    out = set()
+    for bl in body.blocks:
+        t = bl['term']
+        if t['k'] == 'switch' and t.get('adt') == 'planner::Expr':
+            names = t.get('variants', {})
+            for v, tgt in t['targets']:
+                if tgt != t.get('otherwise'):
+                    out.add(names.get(str(v), str(v)))
+    return out
+
+
+def plan_condition_assumptions(ctx, prog):
+    """second half of C01-R3: the plan-level side conditions"""
+    R3 = 'C01-R3'
+    P = 'planner::rules::'
+
+    def has_not(b):
+        return any(st['s'] == 'assign' and st.get('rv', {}).get('rv') == 'unop' and st['rv'].get('op') == 'Not' for _, st in b.stmts())
+
+    def one_call(b, pat):
+        cs = [c for c in b.calls if re.search(pat, c.fn or '')]
+        return cs[0] if len(cs) == 1 else None
+    SETS = {'plan::not_depend_on': (r'HashSet::<.*>::is_disjoint$', False), 'plan::depend_on': (r'HashSet::<.*>::is_disjoint$', True),
+            'plan::all_depend_on': (r'HashSet::<.*>::is_subset$', False)}
+    for fn, (pat, neg) in SETS.items():
+        b = prog.body(P + fn + '::{closure#0}')
+        if not ctx.anchor(R3, P + fn, b is not None):
+            continue
+        ctx.functions_analysed.add(b.name)
+        c = one_call(b, pat)
+        prod = [x for x in b.calls if (x.fn or '') == P + 'plan::produced']
+        ok = c is not None and has_not(b) == neg and len(prod) == 1
+        if ok:   # receiver = columns used by capture 0 (the expression); argument = columns produced by capture 1 (the plan)
+            ok = _captures(b, c.args[0]['pl']['l']) == {0} and 1 in _captures(b, c.args[1]['pl']['l']) and \
+                _captures(b, prod[0].args[1]['pl']['l']) == {1}
+        ctx.ob(R3, f'{fn.split("::")[1]}·shape', bool(ok),
+               f'{fn}: expected `{"!" if neg else ""}used(expr).{pat.split("::")[-1].rstrip("$")}(produced(plan))`', [b.loc],
+               what=f'the side condition {fn} no longer has the shape the law check models; every rule guarded by it is checked against a '
+                    'wrong condition')
+    b = prog.body(P + 'plan::is_not_list::{closure#0}::{closure#0}')
+    o = prog.body(P + 'plan::is_not_list::{closure#0}')
+    if ctx.anchor(R3, P + 'plan::is_not_list', b is not None and o is not None):
+        ctx.ob(R3, 'is_not_list·shape', _match_true_variants(b) == {'List'} and has_not(o), f'is_not_list matches {sorted(_match_true_variants(b))}', [b.loc])
+    b = prog.body(P + 'order::is_merge_join_type::{closure#0}::{closure#0}')
+    if ctx.anchor(R3, P + 'order::is_merge_join_type', b is not None):
+        got = _match_true_variants(b)
+        ctx.ob(R3, 'is_merge_join_type·set', got == {'Inner', 'LeftOuter', 'RightOuter', 'FullOuter'},
+               f'is_merge_join_type accepts {sorted(got)}; the model accepts inner, left_outer, right_outer, full_outer', [b.loc])
+    b = prog.body(P + 'order::is_orderby::{closure#0}')
+    if ctx.anchor(R3, P + 'order::is_orderby', b is not None):
+        c = one_call(b, r'starts_with$')
+        ok = c is not None and not has_not(b) and _captures(b, c.args[0]['pl']['l']) == {1} and _captures(b, c.args[1]['pl']['l']) == {0}
+        ctx.ob(R3, 'is_orderby·shape', bool(ok), 'is_orderby: expected `orderby(plan).starts_with(orderby(keys))`', [b.loc],
+               what='is_orderby no longer tests that the plan\'s order starts with the requested keys (operands swapped or negated): '
+                    'useless-order / merge-join / sort-agg are checked against a wrong condition')
+    b = prog.body(P + 'schema::schema_is_eq::{closure#0}')
+    if ctx.anchor(R3, P + 'schema::schema_is_eq', b is not None):
+        c = one_call(b, r'PartialEq::eq$')
+        ok = c is not None and not has_not(b) and _captures(b, c.args[0]['pl']['l']) | _captures(b, c.args[1]['pl']['l']) == {0, 1}
+        ctx.ob(R3, 'schema_is_eq·shape', bool(ok), 'schema_is_eq: expected `schema(v1) == schema(v2)`', [b.loc])
